@@ -382,6 +382,12 @@ ADDENDA2 = {
     "C18": " Rounds 7-9: the reserved names are stated in the specification, not read from the code. Bounded: nine kinds of edit of an elaborated module are refused and leave no trace; visibility changed in place, then the object moved or added again.",
     "C19": " Rounds 7-9 (bounded): units with a namesake of a flattened bundle member, flipped and one-leaf bundle ports (directions kept), units left half-way by a failed parent; stacks of 11 and more units; series ports given one by name and one as object.",
 }
+ADDENDA3 = {
+    "C11": " Round 12: import_port_dir, import_prefix (never refuse a table entry; the member of the same name) and import_parameter_value (per variant the value the record carries) proved; the direction and prefix round trips are lemmas over the export-side and import-side contracts.",
+    "C12": " Round 12: the static audit also takes loops over expressions that are sets by their syntax (set displays, set()/frozenset(), set algebra on .keys()/.items() views).",
+    "C13": " Round 12: to_scalar under contract (the Prefixed constructor - trusted - is handed the argument itself; a refused string becomes a Literal of the same text); bounded: numeric strings of 19-35 significant digits and exponents beyond a double's range.",
+    "C16": " Round 12: syntactic obligations on flatten()'s assembly (nodes is all of walk(); one unconditional add per node); bounded: leaf devices without terminals at every level.",
+}
 for pid in ALL:
     c = CLAIMS.get(pid)
     if c is None:
@@ -394,7 +400,7 @@ for pid in ALL:
         "evidence_file": f"evidence/{pid}.json",
         "replay_cmd_template": f"./check {pid} --replay {{path}}",
         "engine": "pyvc+rtc",
-        "level_claimed": {"category": c["category"], "text": c["text"] + ADDENDA.get(pid, "") + ADDENDA2.get(pid, ""), "design_ref": c["design_ref"]},
+        "level_claimed": {"category": c["category"], "text": c["text"] + ADDENDA.get(pid, "") + ADDENDA2.get(pid, "") + ADDENDA3.get(pid, ""), "design_ref": c["design_ref"]},
         "level_note": c["note"],
         "technique": c["technique"],
     })
